@@ -99,9 +99,18 @@ def run(ctx):
         drop = top[0]['then']
         if list(direct_writes(drop)) or queue_ops({'body': drop}, r):
             ctx.report(Q2, f, drop, 'Send drop arm', 'a send to a full queue modifies FIFO state')
-        if not any(k == 'push' for k, n in queue_ops({'body': top[0].get('else') or {}}, r)):
+        # the accepting arm: the else branch, or - when the drop arm returns early - what follows the test
+        from ..guards import _always_exits
+        if top[0].get('else') is not None:
+            accept = top[0]['else']
+        elif _always_exits(drop):
+            stmts_ = f['body'].get('body', [])
+            accept = {'k': 'block', 'body': stmts_[[i for i, x in enumerate(stmts_) if x is top[0]][0] + 1:]}
+        else:
+            accept = {}
+        if not any(k == 'push' for k, n in queue_ops({'body': accept}, r)):
             ctx.report(Q2, f, f['body'], 'Send push arm', 'the accepting arm does not push the word')
-        for k, n in queue_ops({'body': top[0].get('else') or {}}, r):
+        for k, n in queue_ops({'body': accept}, r):
             if k == 'push' and [r.r(a) for a in n.get('args', [])] != ['$0']:
                 ctx.report(Q2, f, n, 'Send value', 'the queued word is not the written value')
     ctx.inst(Q2)
